@@ -6,10 +6,10 @@ from common import tlc, tlc_ok, tlc_must_fail, build_driver, run_driver, judge, 
 WHY = {"C03": {"accept", "errclass", "compile"}, "C04": {"tree", "paren", "results"}}
 
 TIERS = {
-    "quick":    dict(mc_lang="MC_Lang_quick.cfg", mc_sent="MC_Sent_quick.cfg", tokN=4, chars=[("full", 3), ("small", 4)],
-                     sentN=5, rtext=4000, rtoks=400, maxlen=30),
-    "thorough": dict(mc_lang="MC_Lang_thorough.cfg", mc_sent="MC_Sent_thorough.cfg", tokN=4, chars=[("full", 4)],
-                     sentN=6, rtext=60000, rtoks=6000, maxlen=60),
+    "quick":    dict(mc_lang="MC_Lang_quick.cfg", mc_sent="MC_Sent_quick.cfg", tokN=4, nearN=4, chars=[("full", 3), ("small", 4)],
+                     sentN=5, chains=3, rtext=4000, rtoks=400, maxlen=30),
+    "thorough": dict(mc_lang="MC_Lang_thorough.cfg", mc_sent="MC_Sent_thorough.cfg", tokN=4, nearN=5, chars=[("full", 4)],
+                     sentN=6, chains=4, rtext=60000, rtoks=6000, maxlen=60),
 }
 
 
@@ -45,12 +45,15 @@ def run(prop, tier, seed, work, ev):
         tlc_ok("mc/MC_Lang.tla", t["mc_lang"], work, ev=ev, label="Pratt(L1)=ABNF(L0), Lex(Spell)=id " + tier, timeout=3000)
         tlc_must_fail("mc/MC_Lang.tla", "MC_Lang_neg.cfg", work, invariant="Inv_C03", ev=ev)
         ev.exhaustive = True
-        ev.rule = ("cases: every token-kind string <= %d tokens (23 kinds) spelled spaced/tight/mixed; every character string over a "
+        ev.rule = ("cases: every token-kind string <= %d tokens (23 kinds) spelled spaced/tight/mixed; every one-token insertion into a sentence of one more token; every character string over a "
                    "29-character alphabet up to the tier's length; seeded random/mutated expression texts. The judge lexes the text "
                    "with the Lexer model and decides by ABNF membership. Non-trivial: the text lexes to >= 2 tokens." % t["tokN"])
         c = work.path("tok.cases")
         gen(work, "tokens", c, t["tokN"])
         rejects += run_and_judge("all token strings <= %d" % t["tokN"], c, work, ev, drv, prop)
+        c = work.path("near.cases")
+        gen(work, "near", c, t["nearN"])
+        rejects += run_and_judge("one-token insertions into every sentence of %d tokens" % t["nearN"], c, work, ev, drv, prop)
         for alpha, n in t["chars"]:
             c = work.path("chars.%s.cases" % alpha)
             gen(work, "chars", c, n, alpha=alpha)
@@ -70,6 +73,10 @@ def run(prop, tier, seed, work, ev):
         c = work.path("sent.cases")
         gen(work, "sent", c, t["sentN"])
         rejects += run_and_judge("all sentences <= %d" % t["sentN"], c, work, ev, drv, prop, docs=c + ".docs")
+        c = work.path("chains.cases")
+        gen(work, "chains", c, t["chains"])
+        rejects += run_and_judge("operator chains: primary + every sequence of <= %d postfix operators" % t["chains"], c, work, ev, drv, prop,
+                                 docs=c + ".docs")
         toks = work.path("rtoks.in")
         e = dict(os.environ, GEN_MAXLEN=str(t["maxlen"]))
         subprocess.check_call([drv, "gen", "lang-toks", str(seed), str(t["rtoks"]), toks], env=e)
